@@ -1574,6 +1574,38 @@ def boundary_cases(rng, tier):
     return cases
 
 
+def accessor_table_cases(rng, tier):
+    """every type tag x every converting accessor (extension round): a value of each tag — the empty one Var(Type) gives and a
+    populated one — read through type/is(all 10)/int/Long/ULong/double/bool/String/toString/length/has/has(k,t)/operator()(k)/contains and
+    the const operator[] with a present key, a missing key, an index inside and beyond the length, and a path continuing through none."""
+    cases = []
+    reps = 2 if tier == "quick" else 12
+    for _ in range(reps):
+        i = rng.choice(INTS + [rbigint(rng)])
+        pops = {
+            "NONE": ["ctor 0 t NONE"], "NUL": ["ctor 0 t NUL"], "BOOL": ["ctor 0 b %d" % rng.randint(0, 1)],
+            "INT": ["ctor 0 i %d" % i], "NUMBER": ["ctor 0 d %d 0" % i], "FLOAT": ["ctor 0 f %d 0" % f32_round_int(i)],
+            "SSTRING": ["ctor 0 s %s" % hexs(rng.choice([b"", b"7", b"-42", b"abc", b"1234567"]))],
+            "STRING": ["ctor 0 s %s" % hexs(rng.choice([b"12345678", b"-123456789", b"a long string value", b"000000012"]))],
+            "ARRAY": ["ctor 0 t ARRAY", "appl 0 i %d" % i, "appl 0 s 61", "appl 0 d %d 0" % i, "appl 0 b 1", "set 0/i5 s 6162636465666768696a"],
+            "OBJ": ["ctor 0 t OBJ", "set 0/k61 i %d" % i, "set 0/k62 s 78", "set 0/k%s d 7 1" % hexs(b"key"), "set 0/k63/k61 b 1", "set 0/k%s t NUL" % hexs(b"")],
+        }
+        probes = ["ctor 1 i %d" % i, "ctor 2 d %d 0" % i, "ctor 3 s 61", "ctor 4 t NONE", "ctor 5 b 1", "ctor 6 s 6162636465666768696a", "ctor 7 t NUL"]
+        for ty in list(TYPES):
+            for pop in (["ctor 0 t %s" % ty], pops[ty]):
+                c = ["reset"] + pop + probes + ["dump 0", "type 0", "conv 0", "tostr 0", "len 0"]
+                c += ["is 0 %s" % t for t in TYPES]
+                for k in [b"a", b"b", b"c", b"key", b"", b"zz", b"0", rng.choice(KEYS)]:
+                    c += ["has 0 %s" % hexs(k), "get 0 %s" % hexs(k), "hast 0 %s %s" % (hexs(k), rng.choice(list(TYPES))),
+                          "dump 0/k%s" % hexs(k), "type 0/k%s" % hexs(k), "len 0/k%s" % hexs(k)]
+                c += ["contains 0 %d" % j for j in range(1, 8)] + ["contains 0 0", "contains 0 0/i0", "contains 0 0/k61"]
+                for ix in [0, 1, 4, 5, 6, 100]:
+                    c += ["dump 0/i%d" % ix, "conv 0/i%d" % ix, "is 0/i%d NONE" % ix]
+                c += ["dump 0/k7a7a/i3/k61", "conv 0/k7a7a/i3", "has 0/k63 61", "has 0/k63 62", "get 0/k63 61", "len 0/k63", "tostr 0/k63", "dumpall"]
+                cases.append(c)
+    return cases
+
+
 def gen(rng, tier):
     cases = []
     cases += lit_cases(rng, tier)
@@ -1583,6 +1615,7 @@ def gen(rng, tier):
     cases += container_ctor_cases(rng, tier)
     cases += growth_cases(rng, tier)
     cases += deep_cases(rng)
+    cases += accessor_table_cases(rng, tier)
     nh = 2500 if tier == "quick" else 40000
     for i in range(nh):
         cases.append(history(rng, rng.choice([12, 25, 40, 60, 90]) if i % 50 else 300))
